@@ -10,5 +10,6 @@ HARNESSES = [dict(COMMON, name="next_attr_bytes", entry="h_next_attr_bytes", che
                   bounds="every NUL-terminated attribute buffer of 5 (7) arbitrary bytes in an exactly sized object: memory safety, 0/-1, name/value/cursor stay inside the buffer", cost=60)]
 for h in c05.HARNESSES:
     if h["name"] == "base64_decode_bytes": h2 = dict(h); h2["name"] = "C05_base64_decode_bytes"; HARNESSES.append(h2)
-OUTSIDE = ["whole documents through hwloc_look_xml (object validity checks, distances/memattr/cpukind import bounds, error paths freeing partial trees): the import logic runs over thousands of characters of text and allocates per element, beyond what concludes here",
+HARNESSES += [dict(h) for h in c05.C06_EXTRA]
+OUTSIDE = ["documents other than the crafted ones; the text layer composed with the import logic (the tokenizer is decided on arbitrary bytes, the import logic on crafted element trees; whole texts of thousands of characters do not conclude)",
            "libxml2 backend (foreign library code)", "diff XML loading", "hangs: termination is only covered through the unwinding assertions of the encoded loops"]
